@@ -14,14 +14,14 @@ ASSUMPTIONS = ["KSWIN: the reset instance and the fresh instance are started fro
                "C02's text: reset() does not re-seed the global generator, so 'identical to a new instance' can only be meant up to the generator state)"]
 
 
-def feed(cls: str, r: dets.Runner, values: list, state=None):
+def feed(cls: str, r: dets.Runner, values: list, state=None, observe: bool = True):
     if cls == "KSWIN" and state is not None:
         np.random.set_state(state)
     for v in values:
         if v == "r":
             r.reset()
             continue
-        r.update(v)
+        r.update(v, observe=observe)
         if r.err is not None:
             break
 
@@ -32,7 +32,8 @@ def one_case(out: Outcome, rng, cls: str, p: dict, pre: list, post: list, runner
         return
     np.random.seed(rng.randint(0, 2**31 - 1))
     state = np.random.get_state()
-    feed(cls, a, pre)
+    unread = rng.random() < 0.3       # nobody looks at the detector during the pre-history (state that is only materialised when read must not survive reset())
+    feed(cls, a, pre, observe=not unread)
     if a.err is not None:
         return
     at_reset = (bool(a.det.drift), bool(getattr(a.det, "warning", False)))
@@ -60,7 +61,13 @@ def one_case(out: Outcome, rng, cls: str, p: dict, pre: list, post: list, runner
     runners.extend([a, b])
     out.count("resets_in_drift" if at_reset[0] else ("resets_in_warning" if at_reset[1] else "resets_in_control"))
     rep = {"class": cls, "params": p, "pre": pre, "post": post}
+    if cls == "BOCD" and a.err is None and b.err is None:
+        ta, tb = np.asarray(a.det.log_r, dtype=float), np.asarray(b.det.log_r, dtype=float)
+        if ta.shape != tb.shape or not np.array_equal(ta, tb, equal_nan=True):
+            out.violation(f"BOCD: the run-length table after reset() + {len(post)} updates (shape {ta.shape}) differs from a fresh instance's (shape {tb.shape})", rep)
     for j, (x, y) in enumerate(zip(a.obs[k0:], b.obs)):
+        if x is None or y is None:
+            continue
         if x != y:
             what = "reads differently right after reset()" if j == 0 else f"output differs from a fresh instance at post-reset update {j}"
             out.violation(f"{cls}: {what}: reset {x} vs fresh {y}", {**rep, "post_index": j})
